@@ -232,16 +232,41 @@ def r8(ctx):
         raise AnalysisBroken('C09.R8: assignment of pt_slaveData not found in DataField::create')
 
 
+def _layout_states():
+    """the abstract SymbolString states the accessors are evaluated on: both kinds, every stored length from 0 up to a few
+    bytes behind the announced end, NN in {0, 1, 2, 3, 5, 16, 254, 255} (255 + 1 must not wrap), distinct byte values"""
+    for master in (1, 0):
+        lo = 4 if master else 0
+        for nn in (0, 1, 2, 3, 5, 16, 254, 255):
+            lens = set(range(0, lo + 9)) | {lo + nn, lo + nn + 1, lo + nn + 2}
+            for ln in sorted(lens):
+                data = [(0x21 + 7 * i) & 0xff for i in range(ln)]
+                if ln > lo:
+                    data[lo] = nn
+                yield master, lo, data
+
+
 def symbol_layout_rule(ctx, rid):
     ctx.rule(rid, 'the inline accessors of SymbolString agree on the telegram layout: the length byte NN is at offset 4 of a master '
-             'string and 0 of a slave string (adjustHeader, getDataSize, getCalculatedDataSize, isComplete), the data starts '
-             'behind it at 5 / 1 (getDataOffset, dataAt const and non-const); adjustHeader stores size - offset - 1, '
-             'getDataSize never reports more bytes than are stored, the const dataAt tests the offset against the size before '
-             'it reads', minimum=9, star=True)
+             'string and 0 of a slave string, the data starts behind it at 5 / 1. Decided by evaluating each accessor body '
+             '(typed AST, integer widths as compiled) on every state of a small model (both kinds, stored lengths 0..end+2, '
+             'NN in {0,1,2,3,5,16,254,255}): getDataOffset = offset of NN + 1; getCalculatedDataSize = stored bytes behind NN; '
+             'getDataSize = min(NN, stored bytes behind NN); isComplete <=> NN is stored and NN bytes are stored behind it; '
+             'the const dataAt(i) yields the stored byte or 0 and never reads outside; the non-const dataAt(i) grows the '
+             'string and refers to byte offset + i; adjustHeader stores exactly the number of bytes behind NN and succeeds '
+             'for every length a telegram can have', minimum=9, star=True)
+    import tinyeval
     fb = ctx.fb
     seen = set()
     n = 0
-    import re
+    done = set()
+    bysig = {}
+    for fn in fb.functions:
+        if fn.blocks and fn.cls == 'ebusd::SymbolString':
+            bysig.setdefault((fn.name, fn.sig), fn)
+
+    def resolve(name, sig):
+        return bysig.get((name, sig))
     for fn in fb.functions:
         if not fn.relfile.endswith('lib/ebus/symbol.h') or not fn.blocks or fn.cls != 'ebusd::SymbolString':
             continue
@@ -258,32 +283,147 @@ def symbol_layout_rule(ctx, rid):
             want = (5, 1) if base in ('dataAt', 'getDataOffset') else (4, 0)
             n += 1
             ctx.ob(rid, fn, x, arms == want, 'layout constant in %s' % base, 'master/slave offsets %s, expected %s' % (arms, want))
-        if base == 'adjustHeader':
-            lo = fn.local_where(lambda k, r: k == '(this.m_isMaster ? #4 : #0)')
-            st = [fn.key(rhs) for nid, d, rhs, op, lhs in fn.assignments() if lhs is not None and rhs is not None and
-                  lo and fn.key(lhs) == 'this.m_data[%s]' % lo[0]]
-            ok = bool(lo) and st == ['(ebusd::symbol_t)((this.m_data.size() - %s) - #1)' % lo[0]]
-            n += 1
-            ctx.ob(rid, fn, fn.body, ok, 'adjustHeader stores the number of bytes behind NN', '%s' % st)
-        if base == 'getDataSize':
-            rets = [fn.key(fn.nodes[r]['val']) for r in fn.all('ReturnStmt') if fn.nodes[r].get('val') is not None]
-            lo = fn.local_where(lambda k, r: k == '(this.m_isMaster ? #4 : #0)')
-            nn = fn.local_where(lambda k, r: lo and k == 'this.m_data[%s]' % lo[0])
-            want = '((this.m_data.size() < ((%s + #1) + %s)) ? ((this.m_data.size() - %s) - #1) : %s)' % (lo[0], nn[0], lo[0], nn[0]) if lo and nn else None
-            n += 1
-            ctx.ob(rid, fn, fn.body, want in rets and '#0' in rets, 'getDataSize is limited to the stored bytes', '%s' % rets)
-        if base == 'dataAt' and 'const' in fn.sig.split(')')[-1]:
-            off = fn.local_where(lambda k, r: k.startswith('((this.m_isMaster ? #5 : #1) + '))
-            reads = [x for x in fn.all('CXXOperatorCallExpr') if fn.nodes[x].get('op') == '[]' and off and
-                     fn.key(x) == 'this.m_data[%s]' % off[0]]
-            ok = bool(off) and bool(reads) and all(fn.needs_one_of(x, [('(%s < this.m_data.size())' % off[0], True)]) for x in reads)
-            n += 1
-            ctx.ob(rid, fn, fn.body, ok, 'const dataAt reads inside the stored bytes', 'offset tested against the size before the read: %s' % ok)
-    if n < 9:
-        raise AnalysisBroken('%s: only %d layout sites found in symbol.h' % (rid, n))
+        const = 'const' in fn.sig.split(')')[-1]
+        if base not in ('getDataOffset', 'getDataSize', 'getCalculatedDataSize', 'isComplete', 'dataAt', 'adjustHeader'):
+            continue
+        ctx.touch(fn)
+        bad = []
+        states = 0
+        try:
+            for master, lo, data in _layout_states():
+                ln = len(data)
+                behind = max(0, ln - lo - 1)
+                nn = data[lo] if ln > lo else None
+                idxs = (0, 1, 2, behind - 1, behind, behind + 1) if base == 'dataAt' else (None,)
+                for i in idxs:
+                    if i is not None and i < 0:
+                        continue
+                    fields = {'m_isMaster': master, 'm_data': list(data)}
+                    states += 1
+                    try:
+                        got = tinyeval.run(fn, fields, [] if i is None else [i], returns_ref=(base == 'dataAt' and not const), resolve=resolve)
+                    except tinyeval.OutOfBounds as e:
+                        bad.append('%s string of %d bytes%s: access outside the stored bytes (%s)' % (
+                            'master' if master else 'slave', ln, '' if i is None else ', index %d' % i, e))
+                        continue
+                    after = fields['m_data']
+                    where = '%s string of %d bytes%s%s' % ('master' if master else 'slave', ln, '' if nn is None else ', NN=%d' % nn,
+                                                           '' if i is None else ', index %d' % i)
+                    if base == 'getDataOffset':
+                        want = lo + 1
+                    elif base == 'getCalculatedDataSize':
+                        want = behind
+                    elif base == 'getDataSize':
+                        want = 0 if nn is None else min(nn, behind)
+                    elif base == 'isComplete':
+                        want = 1 if (nn is not None and behind >= nn) else 0
+                    elif base == 'dataAt' and const:
+                        want = data[lo + 1 + i] if lo + 1 + i < ln else 0
+                    elif base == 'dataAt':
+                        ok = isinstance(got, tinyeval.Ref) and got.box is after and got.key == lo + 1 + i and len(after) > lo + 1 + i \
+                            and after[:ln] == data and all(b == 0 for b in after[ln:])
+                        if not ok:
+                            bad.append('%s: does not refer to byte %d of the grown string' % (where, lo + 1 + i))
+                        continue
+                    else:   # adjustHeader
+                        if got:
+                            ok = len(after) == max(ln, lo + 1) and after[lo] == len(after) - lo - 1 and \
+                                all(after[j] == data[j] for j in range(ln) if j != lo)
+                            if not ok:
+                                bad.append('%s: NN becomes %s with %d bytes stored behind it' % (where, after[lo] if len(after) > lo else None, len(after) - lo - 1))
+                        elif behind <= 16:
+                            bad.append('%s: refused although only %d bytes follow NN' % (where, behind))
+                        continue
+                    if (1 if got else 0) != want if base == 'isComplete' else got != want:
+                        bad.append('%s: %s yields %s, the layout gives %s' % (where, base, got, want))
+        except tinyeval.Unknown as e:
+            raise AnalysisBroken('%s: %s of symbol.h uses a construct the accessor evaluation does not model (%s)' % (rid, base, e))
+        n += 1
+        done.add(base + (' const' if const else ''))
+        ctx.ob(rid, fn, fn.body, not bad, '%s%s against the telegram layout' % (base, ' const' if const else ''),
+               '; '.join(bad[:3]) or 'agrees on all %d model states' % states)
+    missing = {'getDataOffset const', 'getDataSize const', 'getCalculatedDataSize const', 'isComplete const', 'dataAt const',
+               'dataAt', 'adjustHeader'} - done
+    if missing:
+        raise AnalysisBroken('%s: accessors not found in symbol.h: %s' % (rid, sorted(missing)))
+
+
+def r10(ctx):
+    ctx.rule('C09.R10', 'Message::decodeLastData hands the slave fields an index that is relative to the slave part: every path to '
+             'the read of m_lastSlaveData on which the requested field index is not negative passes the subtraction of the '
+             'number of master fields (getCount(pt_masterData, ...)), whichever part was asked for', minimum=1)
+    fb = ctx.fb
+    fn = fb.fn('ebusd::Message::decodeLastData')
+    ctx.touch(fn)
+    reads = [c for c in fn.calls('ebusd::DataField::read', suffix=False) if fn.key(fn.nodes[c]['args'][0]) == 'this.m_lastSlaveData']
+    idx = [p for p in fn.params if p.get('name') == 'fieldIndex'] or [fn.params[3]]
+    idxd, idxn = idx[0]['decl'], idx[0]['name']
+    pm = fb.enumerator('ebusd::PartType', 'pt_masterData')
+    subs = set(nid for nid, d, rhs, op, lhs in fn.assignments() if d == idxd and op == '-=' and rhs is not None and
+               any((fn.nodes[x].get('callee') or '').endswith('::getCount') and fn.val(fn.nodes[x]['args'][0]) == pm
+                   for x in fn.walk(fn.def_expr(rhs))))
+    if not reads or not subs:
+        raise AnalysisBroken('C09.R10: slave read (%d) or master field count subtraction (%d) not found' % (len(reads), len(subs)))
+    negkey = '(%s < #0)' % idxn
+    writes = set(nid for nid, d, rhs, op, lhs in fn.assignments() if d == idxd)
+    res = {}
+
+    def on_elem(user, e, path):
+        if e in subs:
+            return frozenset(set(user) | {'sub'})
+        if e in writes:
+            return frozenset(x for x in user if x != 'neg')
+        if e in reads and 'sub' not in user and 'neg' not in user:
+            res.setdefault(e, path)
+        return user
+
+    def on_edge(user, b, j, dnf):
+        if len(dnf) == 1 and any(facts.atom_key(fn, a) == (negkey, True) for a in dnf[0]):
+            return frozenset(set(user) | {'neg'})
+        return user
+    facts.Explorer(fn, on_elem=on_elem, on_edge=on_edge).run(fn.entry, 0, frozenset())
+    for c in reads:
+        if not any(fn.nodes[x].get('decl') == idxd for a in fn.nodes[c]['args'] for x in fn.walk(a)):
+            ctx.ob('C09.R10', fn, c, False, 'slave read', 'the field index is not passed to the slave read')
+            continue
+        bad = c in res
+        ctx.ob('C09.R10', fn, c, not bad, 'index of the slave read', 'reachable with a non-negative index that still counts the '
+               'master fields: %s' % bad)
+
+
+def r11(ctx):
+    ctx.rule('C09.R11', 'the room a definition offers for data is what its ID column states: in Message::create the limit '
+             '(maxLength) is the sum of the chain part lengths accumulated in the parsing loop; behind that loop it is changed '
+             'only when the last part came without an explicit length (then that part may use the maximum). An explicit '
+             'length must not be widened, or a value that does not fit the chain is cut off silently when it is built',
+             minimum=2)
+    fb = ctx.fb
+    fn = fb.fn('ebusd::Message::create')
+    ctx.touch(fn)
+    acc = [(nid, d) for nid, d, rhs, op, lhs in fn.assignments() if op == '+=' and rhs is not None and d and
+           any((fn.nodes[l].get('k') == 'WhileStmt') for l in fn.ancestors(nid)) and 'chainLength' in fn.key(rhs)]
+    flags = [d for nid, d, rhs, op, lhs in fn.assignments() if op == '=' and rhs is not None and d and
+             fn.key(rhs).endswith('!= #18446744073709551615)') and any(fn.nodes[l].get('k') == 'WhileStmt' for l in fn.ancestors(nid))]
+    if len(acc) != 1 or len(set(flags)) != 1:
+        raise AnalysisBroken('C09.R11: accumulation of the part lengths (%d) or the explicit-length flag (%d) not found' % (len(acc), len(set(flags))))
+    mx = acc[0][1]
+    flag = flags[0].split(':')[-1]
+    loop = [l for l in fn.ancestors(acc[0][0]) if fn.nodes[l].get('k') == 'WhileStmt'][0]
+    inloop = set(fn.walk(loop))
+    n = 0
+    for nid, d, rhs, op, lhs in fn.assignments():
+        if d != mx or nid in inloop or op == 'init':
+            continue
+        n += 1
+        ok = fn.needs_one_of(nid, [(flag, False)])
+        ctx.ob('C09.R11', fn, nid, ok, 'limit changed behind the chain loop', 'only without explicit last length: %s' % ok)
+    if n < 2:
+        raise AnalysisBroken('C09.R11: only %d changes of the limit behind the loop found' % n)
 
 
 def run(ctx):
+    r11(ctx)
+    r10(ctx)
     r1(ctx)
     r2(ctx)
     r3(ctx)
@@ -295,3 +435,6 @@ def run(ctx):
     r7(ctx)
     r8(ctx)
     symbol_layout_rule(ctx, 'C09.R9')
+    import rules.common as _common
+    ctx.rule('C09.R12', 'arguments keep their roles across calls: at every call of a repository function in message.cpp (part index, ID and data must reach the builder in their own slots) whose arguments are named like parameters of the callee, no two of them are passed crosswise (argument i named like parameter j and argument j like parameter i)', minimum=20)
+    _common.swapped_args_rule(ctx, 'C09.R12', ('src/lib/ebus/message.',), 20)
